@@ -616,6 +616,26 @@ func (e *Env) evalCall(n *ECall) SVal {
 			b = SVal{T: app(SReal, "to_real", b.T)}
 		}
 		return SVal{T: app(SReal, "powR", a.T, b.T)}
+	case "bytestr":
+		// abstract content of a []byte value
+		need(1)
+		return SVal{T: c.bytesContent(e.cur, arg(0).T), Type: types.Typ[types.String]}
+	case "bigenc":
+		need(1)
+		c.declareFun("big.enc", []Sort{SInt}, SStr)
+		return SVal{T: app(SStr, "big.enc", arg(0).T), Type: types.Typ[types.String]}
+	case "bigdec":
+		need(1)
+		c.declareFun("big.dec", []Sort{SStr}, SInt)
+		return SVal{T: app(SInt, "big.dec", arg(0).T)}
+	case "be64enc":
+		need(1)
+		c.declareFun("be64.enc", []Sort{SInt}, SStr)
+		return SVal{T: app(SStr, "be64.enc", arg(0).T), Type: types.Typ[types.String]}
+	case "be64dec":
+		need(1)
+		c.declareFun("be64.dec", []Sort{SStr}, SInt)
+		return SVal{T: app(SInt, "be64.dec", arg(0).T)}
 	case "allocated":
 		need(1)
 		return SVal{T: tLe(arg(0).T, e.heap(e.cur, c.allocName()))}
